@@ -20,10 +20,10 @@ LOGS_EMPTY = ("g_vwr[0] == 0 && g_vwr[1] == 0 && g_vwr[2] == 0 && g_vwr[3] == 0 
               "g_dwr[2] == 0 && g_dwr[3] == 0 && g_dwr[4] == 0 && g_swr == 0 && g_swr_other == 0 && g_nel == 0 && g_nin == 0 && "
               "g_nin_other == 0 && !g_overflow && g_hl_n == 0")
 # instrumentation: every assignment to the local `i` (the current pixel) is exported to the ghost g_i
-SUBS = [(r"edges\.emplace_back\(", "edges_emplace_back("), (r"\bT\(f, i\)", "T_make(f, i)", 0),
+SUBS = [(r"edges\.emplace_back\(", "edges_emplace_back("), (r"\bT\(([^()]*)\)", r"T_make(\1)", 0),
         (r"(?<![\w.])i = ([^;]+);", r"i = \1; g_i = i;")]
 # the declarations and lambdas at the top of fill_and_pair that every piece depends on
-PROLOGUE = (r"Index i;", r"auto pair_square_right\s*=\s*\[&\]\(\)\{[^}]*\};")
+PROLOGUE = (r"Index i;", r"(?=\bi = [^;]*; f = input\(i\);)")   # everything declared before the first corner is handled
 
 # replacement contract of has_larger_input inside the pixel units: a pure function of the neighbour (ghost table)
 C_HL_TABLE = """
@@ -87,22 +87,22 @@ PIXELS = [
     ("last_row", "K_LAST_ROW", {"kind": "loop", "ordinal": 3}, "void px_last_row(Index x)",
      GRID + " && 1 <= x && x < size_x", "g_i == size_y * dy + x", "in_x",
      (r"set_parent_vertex\(v_down_right\(\), v_down_left\(\)\)", "set_parent_vertex(v_down_left(), v_down_right())")),
-    ("first_col", "K_FIRST_COL", {"kind": "block", "at": r"i = y \* dy;"}, "void px_first_col(Index y)",
+    ("first_col", "K_FIRST_COL", {"kind": "bare_block", "in_loop": 1, "ordinal": 0}, "void px_first_col(Index y)",
      GRID + " && 1 <= y && y < size_y", "g_i == y * dy", "in_y",
      (r"mark_edge_critical\(v_down_right\(\), v_up_right\(\)\)", "mark_edge_critical(v_up_right(), v_down_right())")),
-    ("last_col", "K_LAST_COL", {"kind": "block", "at": r"i = size_x \+ dy \* y;"}, "void px_last_col(Index y)",
+    ("last_col", "K_LAST_COL", {"kind": "bare_block", "in_loop": 1, "ordinal": 1}, "void px_last_col(Index y)",
      GRID + " && 1 <= y && y < size_y", "g_i == size_x + dy * y", "in_y",
      (r"else if \(up_left\(\)\)", "else if (down_left())")),
-    ("corner0", "K_CORNER0", {"kind": "slice", "first": r"i = 0; f = input\(i\);", "last": r"mark_vertex_critical\(v_up_right\(\)\);"},
+    ("corner0", "K_CORNER0", {"kind": "slice", "first": r"i = [^;]*; f = input\(i\);", "nth": 0, "after": True, "last": r";"},
      "void px_corner0(void)", GRID, "g_i == 0", "",
      (r"if \(has_larger_input\(i \+ 1, i, f\) && has_larger_input\(i \+ dy, i, f\) && has_larger_input\(i \+ dy \+ 1, i, f\)\)", "")),
-    ("corner1", "K_CORNER1", {"kind": "slice", "first": r"i = size_x; f = input\(i\);", "last": r"mark_vertex_critical\(v_up_left\(\)\);"},
+    ("corner1", "K_CORNER1", {"kind": "slice", "first": r"i = [^;]*; f = input\(i\);", "nth": 1, "after": True, "last": r";"},
      "void px_corner1(void)", GRID, "g_i == size_x", "",
      (r"has_larger_input\(i \+ dy - 1, i, f\)", "has_larger_input(i + dy, i, f)")),
-    ("corner2", "K_CORNER2", {"kind": "slice", "first": r"i = dy \* size_y; f = input\(i\);", "last": r"mark_vertex_critical\(v_down_right\(\)\);"},
+    ("corner2", "K_CORNER2", {"kind": "slice", "first": r"i = [^;]*; f = input\(i\);", "nth": 2, "after": True, "last": r";"},
      "void px_corner2(void)", GRID, "g_i == dy * size_y", "",
      (r"mark_vertex_critical\(v_down_right\(\)\)", "mark_vertex_critical(v_down_left())")),
-    ("corner3", "K_CORNER3", {"kind": "slice", "first": r"i = size_x \+ dy \* size_y; f = input\(i\);", "last": r"mark_vertex_critical\(v_down_left\(\)\);"},
+    ("corner3", "K_CORNER3", {"kind": "slice", "first": r"i = [^;]*; f = input\(i\);", "nth": 3, "after": True, "last": r";"},
      "void px_corner3(void)", GRID, "g_i == size_x + dy * size_y", "",
      (r"has_larger_input\(i - 1, i, f\) &&", "")),
 ]
